@@ -1,7 +1,7 @@
 """C12 — timeouts bound every blocking step on real sockets (partial: the logical core is proved, the OS is measured)."""
 import random
 import vlib
-from props import netprops, httpplan
+from props import netprops, httpplan, sockplan
 
 LEVEL = "other"
 RULE = ("real sockets, no scripted transport: Valve queries against an in-process loopback UDP server (IPv4 and IPv6) that answers the "
@@ -21,7 +21,13 @@ RULE = ("real sockets, no scripted transport: Valve queries against an in-proces
         "depths of a real Eco document, no / bad Content-Length, bodies that are not the document, redirects ending in a mute or "
         "stalling peer — x eco / get_json / get x both families, read 150 ms / write 1.3 s / connect 0.7 s: result, connections and request "
         "heads = the model's; independently: the error class per behaviour, elapsed <= the ONE timeout the behaviour can run into + slack "
-        "and >= 0.6 of it (which duration bounds which wait), no wait at all for behaviours that do not block. Non-trivial = every case.")
+        "and >= 0.6 of it (which duration bounds which wait), no wait at all for behaviours that do not block. socket.rs inside the model "
+        "(`sock`, Proto/Socket.lean): UdpSocketImpl / TcpSocketImpl themselves against loopback peers addressed as 127.0.0.1 / ::1 / "
+        "::ffff:127.0.0.1 — datagrams of 0..65507 bytes and the buffer size effect, a reply from another socket, a closed port, silent "
+        "peers, a TCP peer that writes in pieces / closes / stalls / resets / never reads, refused and unanswered connection attempts, "
+        "read != write != connect durations in two orders of magnitude, no settings (4 s defaults): results, what the peer received and from "
+        "which family, nothing at decoy addresses = the model's; every step's wall clock against the duration the MODEL's own "
+        "set_read_timeout / set_write_timeout / connect_timeout calls put in force (too long and too short both fail). Non-trivial = every case.")
 ASSUMPTIONS = ["scheduling slack of 250 ms + 60 ms per timed-out step is allowed on top of the bound",
                "that SO_RCVTIMEO / connect_timeout are honoured by the OS is measured here, not proved"]
 TRUSTED = ["Lean theorems C12_valve_blocking_bound, C12_gs2_blocking_bound, C12_minecraft_java_blocking_bound / _silent_server give the number of "
@@ -51,10 +57,14 @@ def run(rep, tier, seed, replay=None):
     rnd = random.Random(seed)
     cases, meta = [], {}
     http_lines = []
+    sock_lines = []
     if replay is not None:
         http_lines = [l for l in replay if httpplan.is_http(l)]
-        cases = [l for l in replay if not httpplan.is_http(l)]
+        sock_lines = [l for l in replay if sockplan.is_sock(l)]
+        cases = [l for l in replay if not httpplan.is_http(l) and not sockplan.is_sock(l)]
     else:
+        # socket.rs inside the model (Proto/Socket.lean): every decision of UdpSocketImpl / TcpSocketImpl observed from outside
+        sock_lines = sockplan.gen_c12(tier) + [l for l in netprops.corpus("C12") if sockplan.is_sock(l)]
         # the HTTP client inside the model: every failure class, three calls, both families (long waits side by side)
         http_lines = httpplan.gen("httperr", seed + 12, 87 if tier == "quick" else 435) + [l for l in netprops.corpus("C12") if httpplan.is_http(l)]
         bases = single_datagram_cases(seed + 12, 200)[: (4 if tier == "quick" else 30)]
@@ -208,6 +218,7 @@ def run(rep, tier, seed, replay=None):
             if self.feed:
                 rep.seen(*a, **k)
 
+    sockplan.run(rep, sock_lines, "c12sk", lanes=3, oracles=(sockplan.c12_failures,))
     first = _Collect(True)
     for o in httpplan.run(first, http_lines, "c12hp", lanes=3 if tier == "quick" else 5, count="kind:http-plan"):
         httpplan.c12_oracle(first, o)
